@@ -191,7 +191,7 @@ class TypedKernel(Kernel):
         return Kernel.term(self, e, depth)
 
 
-def closure_function(prog, cbody, param_syms, upvar_leaf=None, kernel_cls=None):
+def closure_function(prog, cbody, param_syms, upvar_leaf=None, kernel_cls=None, extra=None):
     """(return term, {upvar index: updated-value term}) of a loop-free closure body, as nested ite over its branches.
     param_syms: {param local: T-term or callable(expr)->T}.  Mutations of captured `&mut` accumulators are returned
     as updates (at most one per path)."""
@@ -215,6 +215,8 @@ def closure_function(prog, cbody, param_syms, upvar_leaf=None, kernel_cls=None):
             if upvar_leaf is not None:
                 return upvar_leaf(e)
             return ("sym", "^%s" % (e[2] or e[1]))
+        if extra is not None:
+            return extra(tb, e)
         return None
 
     K = (kernel_cls or Kernel)(prog, tb, leaf)
@@ -311,9 +313,9 @@ def blocks_of_path(tb, decisions):
     return set(seen)
 
 
-def closure_terms(prog, cbody, param_syms, upvar_leaf=None, kernel_cls=None):
+def closure_terms(prog, cbody, param_syms, upvar_leaf=None, kernel_cls=None, extra=None):
     """→ (return_term or None, {upvar idx: update term as ite-tree (identity = ('keep',))})"""
-    K, tb, paths, results, upd_sites = closure_function(prog, cbody, param_syms, upvar_leaf, kernel_cls=kernel_cls)
+    K, tb, paths, results, upd_sites = closure_function(prog, cbody, param_syms, upvar_leaf, kernel_cls=kernel_cls, extra=extra)
     ret = None
     if results and all(r is not None for _, r in results):
         ret = decision_tree(K, tb, [(d, r) for d, r in results])
